@@ -392,7 +392,11 @@ func solve(cfg *SolverCfg, smt string) *qResult {
 			if sp.name == res.solver {
 				continue
 			}
-			r2, _ := runOne(context.Background(), sp, file, cfg.Timeout)
+			cto := cfg.Timeout
+			if strings.Contains(smt, "(define-sort B () (Seq Int))") && cto > 15*time.Second {
+				cto = 15 * time.Second // only cvc5 decides sequence queries; do not wait two minutes for the others
+			}
+			r2, _ := runOne(context.Background(), sp, file, cto)
 			if r2 == "sat" {
 				res.res = "unknown"
 				res.raw = "solver disagreement: " + res.solver + " unsat, " + sp.name + " sat"
